@@ -21,6 +21,12 @@ def run(ctx):
                       "copy first and the ancestor's default is never written through it", floor=1)
     ctx.rule("R12.u", "mutable-container model: the predicate that decides which slot values are copied for per-instance Parameters and on inheritance (_is_mutable_container) is True for every "
                       "mutable container -- dict / list subclasses (OrderedDict, defaultdict) and non-builtin ones (deque) included", floor=1)
+    ctx.rule("R12.x", "what an instance holds stays held: no function in param removes an entry from the per-instance value store (del values[name], values.pop, values.clear, "
+                      "rebinding of `.values` outside the constructor of the private namespace) -- an entry identical to the class default may be an explicit assignment, and dropping it "
+                      "makes the instance follow later class-level sets", floor=1)
+    ctx.rule("R12.y", "the uninitialized window is the constructor's alone: the as_uninitialized wrapper (while it is in force, `.param[...]` hands out the CLASS-level Parameter instead of "
+                      "creating the per-instance copy) decorates only _set_name, _generate_name and _setup_params -- never code that runs user callbacks, whose edits of "
+                      "`self.param.<p>.<attr>` would land on the class", floor=3)
     ctx.rule("R12.a", "in every Parameter method that receives `obj`, each write to self.default / a class-level slot lies on paths where `obj is None` holds (the instance route never writes class storage)", floor=4)
     ctx.rule("R12.b", "per-instance Parameter objects have a single producer: only _instantiated_parameter writes <instance>._param__private.params[key], and it writes the result of _instantiate_param_obj", floor=1)
     ctx.rule("R12.c", "_instantiate_param_obj returns a copy.copy of the class Parameter, gives it fresh watchers and re-copies every mutable-container slot other than default", floor=3)
@@ -299,3 +305,41 @@ def run(ctx):
     ctx.require(n_w >= 1, "the metaclass's own __set__(None, value) call was not found")
     from checks.shared import mutable_container_model
     mutable_container_model(ctx, "R12.u")
+    # R12.x
+    n_x, hits = 0, []
+    for g in ctx.repo.funcs.values():
+        aliases = None
+        for st in ast.walk(g.node):
+            tgt = None
+            if isinstance(st, ast.Delete):
+                for t in st.targets:
+                    if isinstance(t, ast.Subscript):
+                        tgt = t.value
+            elif isinstance(st, ast.Call) and isinstance(st.func, ast.Attribute) and st.func.attr in ("pop", "popitem", "clear") :
+                tgt = st.func.value
+            if tgt is None:
+                continue
+            aliases = aliases if aliases is not None else ctx.facts.local_aliases(g)
+            if ctx.facts.field_of(tgt, aliases) == "private.values" or norm(tgt).endswith("_param__private.values"):
+                hits.append((g, st))
+    n_x = sum(1 for g in ctx.repo.funcs.values() if "_param__private" in ast.unparse(g.node))
+    if hits:
+        g, st = hits[0]
+        ctx.fail("R12.x", g, st, "%s removes an entry from the per-instance value store (`%s`): an instance that explicitly assigned that value -- it may be the very object the class default is -- "
+                                 "silently goes back to following the class" % (g.qualname, norm(st)[:70]), key="%s::value-store-entry-removed" % g.qualname)
+    else:
+        ctx.ok("R12.x", ctx.repo.func(P + "Parameter.__set__"), None, "no removal from the per-instance value store in %d functions that touch the private namespace" % n_x)
+    ctx.require(n_x >= 20, "fewer than 20 functions touching the private namespace found (%d)" % n_x)
+    # R12.y
+    allowed = {"_set_name", "_generate_name", "_setup_params"}
+    n_y = 0
+    for g in ctx.repo.funcs.values():
+        if g.has_decorator("as_uninitialized"):
+            n_y += 1
+            if g.name in allowed and g.cls is not None and g.cls.qualname == P + "Parameters":
+                ctx.ok("R12.y", g, g.node, "%s runs uninitialized (constructor-only code)" % g.name)
+            else:
+                ctx.fail("R12.y", g, g.node, "%s runs with the instance marked uninitialized: while that holds, `obj.param.<p>` / `obj.param[<p>]` hand out the class-level Parameter instead of the "
+                                             "per-instance copy, so metadata edits made by the code it runs (bounds, objects, constant, ...) change the class, its subclasses and every other instance" % g.qualname,
+                         key="%s::runs-uninitialized" % g.qualname)
+    ctx.require(n_y >= 3, "fewer than 3 functions decorated with as_uninitialized found (%d)" % n_y)
